@@ -70,6 +70,7 @@ class CountingDeque(BlockingDeque):
 
     def popleft(self):
         g = gevent.getcurrent()
+        self.lab.on_poll(g)
         try:
             item = super(CountingDeque, self).popleft()
         except Timeout:
@@ -328,6 +329,7 @@ class PoolLab(object):
         self.cnt = collections.Counter()
         self.callers = []
         self.by_env = {}
+        self.last_poll = None
         self.crashes = []              # exceptions that killed greenlets (hub.print_exception)
         self.invariant_breaks = []
         self.http = None
@@ -355,6 +357,17 @@ class PoolLab(object):
         c = self.by_env.get(id(item[1]))
         if c is not None:
             c.request = item
+        pool = self.relay.pool
+        if any(cl.dead for cl in pool):
+            self.cnt['race:enqueue-while-finished-client-still-in-pool'] += 1
+        if any(getattr(cl, 'idle', False) for cl in pool) and len(self.relay.queue):
+            self.cnt['race:enqueue-behind-request-an-idle-client-has-not-taken-yet'] += 1
+        if pool and not any(getattr(cl, 'idle', False) or cl.dead for cl in pool):
+            self.cnt['race:enqueue-while-every-client-busy-or-exiting'] += 1
+
+    def on_poll(self, g):
+        if self.pops[g]:
+            self.last_poll = time.time()
 
     def on_requeue(self, item):
         self.cnt['requeue'] += 1
@@ -366,6 +379,9 @@ class PoolLab(object):
         self.pops[g] += 1
 
     def on_poll_timeout(self, g):
+        if len(self.relay.queue):
+            # a caller saw this client idle, queued its request, and the client leaves without it
+            self.cnt['race:idle-expiry-with-request-queued'] += 1
         if self.pops[g]:
             self.cnt['idle-expiry'] += 1
             self.ev('idle-expiry',)
@@ -479,8 +495,13 @@ class PoolLab(object):
         return act
 
     # ------------------------------------------------------------------ callers
-    def _caller(self, c):
+    def _caller(self, c, delay=None):
         try:
+            if delay is not None:
+                # woken by its own timer, like a caller woken by I/O in the same loop iteration in
+                # which a client's idle timer expires (the caller runs attempt() before that timer fires)
+                gevent.sleep(delay)
+                self.ev('call', c.i)
             c.result = self.relay.attempt(c.env, 0)
         except RelayError as e:
             c.error = e
@@ -492,7 +513,7 @@ class PoolLab(object):
             c.done = True
             self.ev('done', c.i)
 
-    def start_caller(self):
+    def start_caller(self, delay=None):
         i = len(self.callers)
         marker = 'm%d' % i
         sender = 'from%d@s.test' % i
@@ -503,8 +524,9 @@ class PoolLab(object):
         c.env = env
         self.by_env[id(env)] = c
         self.callers.append(c)
-        c.greenlet = gevent.spawn(self._caller, c)
-        self.ev('call', i)
+        c.greenlet = gevent.spawn(self._caller, c, delay)
+        if delay is None:
+            self.ev('call', i)
 
     # ------------------------------------------------------------------ invariants at harness steps
     def check_invariant(self, where):
@@ -551,13 +573,33 @@ class PoolLab(object):
                 if self._stranded():
                     break
             ch = ['nap', 'settle']
+            if remaining and self.idle and self.last_poll:
+                ch += ['snipe'] * 2
             if remaining:
                 ch += ['burst'] * 3
             if self.held:
                 ch += ['release'] * (3 if not remaining else 2)
             op = rnd.choice(ch)
+            trickle = self.case.get('arrival') == 'trickle'
+            if op == 'burst' and trickle and self.blocked() and rnd.random() < 0.7:
+                op = 'nap'      # one caller at a time: the next one mostly meets an idling client
+            if op == 'snipe':
+                # arrive just when the client that polled last reaches its idle timeout
+                eps = rnd.choice([-0.0012, -0.0008, -0.0004, -0.0002, -0.0001, 0.0, 0.0002])
+                wait = self.last_poll + self.idle + eps - time.time()
+                self.last_poll = None
+                if wait > 0:
+                    self.cnt['snipe'] += 1
+                    k = 1 if rnd.random() < 0.7 else min(remaining, 2)
+                    for _ in range(k):
+                        self.start_caller(delay=wait)
+                    remaining -= k
+                    gevent.sleep(wait + 0.002)
+                    self.check_invariant('step')
+                    continue
+                op = 'burst'
             if op == 'burst':
-                k = min(remaining, rnd.choice([1, 1, 2, 3, remaining]))
+                k = 1 if trickle else min(remaining, rnd.choice([1, 1, 2, 3, remaining]))
                 for _ in range(k):
                     self.start_caller()
                 remaining -= k
@@ -634,13 +676,9 @@ class PoolLab(object):
             gevent.sleep(0.004)
         if self.idle:
             # let every idle timeout elapse, then look at the final state
-            end = time.time() + WATCHDOG
             gevent.sleep(self.idle * 1.5 + 0.02)
             self.settle()
-            while self.relay.pool and not outcome['stranded'] and time.time() < end and \
-                    any(not cl.dead for cl in self.relay.pool):
-                gevent.sleep(0.01)
-            self.settle()
+        outcome['open_left'] = len(self.open)
         outcome['pool_left'] = len(self.relay.pool)
         outcome['queue_left'] = len(self.relay.queue)
         self.check_invariant('final')
